@@ -365,7 +365,7 @@ def write_evidence(chk, violations, extra_assumptions=()):
         "known_findings_printed": chk.extra.get("known_printed", []),
         "tree": repo_id(),
     }
-    for k in ("exhaustive", "explanation", "partial", "statements", "source_translation"):
+    for k in ("exhaustive_exploration", "explanation", "partial", "statements", "source_translation"):
         if k in chk.extra:
             cov[k] = chk.extra[k]
     ev = {
